@@ -130,4 +130,30 @@ mod verif_c01_helpers {
         kani::cover!(c.is_some());
         kani::cover!(a.is_some() && b.is_none());
     }
+    // progress ("terminates within time proportional to the input"): a name string of L bytes yields at most L characters, in
+    // every encoding, also when L is odd / the last UTF-16 unit is truncated or an unpaired surrogate
+    //@harness fns=NameString::chars,CharIter::next,CharIter::bump_u16,CharIter::bump_u8 bound="any bytes <=30 B, first record, strings of <= 5 bytes" timeout=1200
+    #[kani::proof]
+    #[kani::unwind(9)]
+    fn name_string_chars_count_bounded_by_length() {
+        let buf: [u8; 30] = kani::any();
+        let len: usize = kani::any();
+        kani::assume(len <= 30);
+        let Ok(n) = Name::read(FontData::new(&buf[..len])) else { return; };
+        let recs = n.name_record();
+        if recs.is_empty() { return; }
+        let l = recs[0].length() as usize;
+        kani::assume(l <= 5);
+        let Ok(s) = recs[0].string(n.string_data()) else { return; };
+        let mut it = s.chars();
+        let mut k = 0usize;
+        while k <= 5 {
+            if it.next().is_none() { break; }
+            k += 1;
+        }
+        assert!(k <= l);
+        kani::cover!(k == 5);
+        kani::cover!(l == 3 && k == 1);
+        kani::cover!(l == 3 && k == 3);
+    }
 }
